@@ -1,8 +1,8 @@
 (* C08 - MusicXML/music21 export sounds the same as the MIDI rendering.
    Statements only; proofs in Proofs/MxlProofs.v.  The tie/rest state machine of the exporter is modelled
-   (Model/Mxl.v) and tied to Score.to_music21 by correspondence; its equality with C03's sounding notes is
-   evaluated on the implementation by the oracle (not a theorem). *)
-From ML Require Import Model.Types gen.Tables Model.Pitch Model.Rel Model.Render Model.Slice Model.Mxl Proofs.MxlProofs Proofs.MxlVoice.
+   (Model/Mxl.v) and tied to Score.to_music21 by correspondence; that the written voice is the list of sounding notes
+   (and, for parts present throughout, the Spec of C03) is proved in Proofs/MxlSound.v. *)
+From ML Require Import Model.Types gen.Tables Model.Pitch Model.Rel Model.Render Model.Slice Model.Mxl Spec.RenderSpec Proofs.MxlProofs Proofs.MxlVoice Proofs.MxlSound.
 Open Scope Z_scope.
 
 (* every cell of the three spelling tables (3 modes x 12 tonics x 7 degrees) spells the pitch class of its degree,
@@ -25,6 +25,30 @@ Proof. exact voice_lasts_the_score. Qed.
 Theorem C08_voice_prefix : forall s1 track st out, writable_score s1 track ->
   fold_left (chord_step track) s1 (Some (mkVS None None true true, [])) = Some (st, out) -> mel_total out = score_dur s1.
 Proof. exact voice_prefix_total. Qed.
+
+(* the notes of a voice ARE the part's sounding notes.  Reading the written voice as music (a note element starts a sounding
+   note at the sum of the durations before it; directly following tied elements prolong it; everything else is silence) gives,
+   for every score whose present parts are non-empty and free of drum / pattern notes: each pitched note of the part, at its
+   onset, with midi number 60 + the pitch rendered from the last sounded pitch of the part (kept through rests, chord changes
+   and chords the part is absent from), lasting its own duration plus the continuations directly following it.
+   events / esound / msound: Proofs/MxlSound.v *)
+Theorem C08_voice_is_sounding : forall s track out, solid_score s track -> tonics_ok s -> voice_of s track = Some out ->
+  esound None 0 (events s track) = Some (msound 0 out).
+Proof. exact voice_is_sounding. Qed.
+
+(* ... and when the part is present in every chord and lasts as long as each, these are exactly the sounding notes of the Spec
+   of C03 (what the MIDI rendering plays): same onsets, same tied durations, pitch + 60 *)
+Theorem C08_voice_is_rendering : forall s track out, solid_score s track -> tonics_ok s -> full_part s track ->
+  voice_of s track = Some out -> exists l, sounding_of s track = Some l /\ msound 0 out = map to3 l.
+Proof. exact voice_is_rendering. Qed.
+
+Example C08_ex_sounding :
+  let nt k v du := mkTN (mkP k Abs v 0 None None) du 66 in
+  let s := [mkRC (mkC 0 (bare "") (mkT 1 MMin 0) 0) [("p"%string, [nt KS 6 2; nt KL 0 1; nt KR 0 1; nt KL 0 1; nt KS 2 1])];
+            mkRC (mkC 4 (bare "") (mkT 1 MMin 0) 0) [("p"%string, [nt KL 0 1; nt KS 0 2])]] in
+  option_map (msound 0) (voice_of s "p") = Some [(72, 0, 3); (64, 5, 2); (68, 7, 2)] /\
+  option_map (map to3) (sounding_of s "p") = Some [(72, 0, 3); (64, 5, 2); (68, 7, 2)].
+Proof. exact voice_is_rendering_ex. Qed.
 
 (* non-vacuity: a tied chain in the first chord, a rest, a continuation after the rest, a chord change *)
 Example C08_ex :
